@@ -221,6 +221,23 @@ func checkC10(c *Ctx) {
 		}
 	}
 
+	// ---- (2a) no storage error is lost inside the importer (incl. its background writer)
+	c.rule("ERR-import", "errors of storage calls made by the importer, also in its background goroutine, are not dropped or shadowed", 8)
+	{
+		ea := newErrAnalysis(c, l)
+		ea.runE1E2E4("ERR-import", "ERR-import", "ERR-import", func(fn *ssa.Function) bool {
+			top := fn
+			for top.Parent() != nil {
+				top = top.Parent()
+			}
+			r := top.Signature.Recv()
+			if r == nil {
+				return false
+			}
+			n := derefNamed(r.Type())
+			return n != nil && strings.Contains(n.Obj().Name(), "Importer")
+		})
+	}
 	// ---- (2b) the background node batch and the root batch
 	checkInflightProtocol(c, "OWN-root-marker")
 	// ---- (2c) keys handed on by the decompressing wrapper
